@@ -247,6 +247,9 @@ func suiteRedisConc(c *Ctx) {
 	for r := 0; r < c.scale(16, 100); r++ {
 		redisConcMergeSameSource(c, s, r)
 	}
+	for r := 0; r < c.scale(20, 100); r++ {
+		redisConcTwoFilters(c, s, r)
+	}
 	for r := 0; r < c.scale(8, 50); r++ {
 		for ki := 0; ki < 5; ki++ {
 			redisConcEquals(c, s, ki)
@@ -998,6 +1001,60 @@ func redisConcMergeSameSource(c *Ctx, s *cmdSched, round int) {
 	}
 	if alternations(order) >= 2 {
 		c.nontrivial(fmt.Sprint("merge-same-source", round, order))
+	}
+}
+
+// Two DIFFERENT Redis-backed Bloom filters queried at the same time from two goroutines: each answers
+// for itself (whatever the client side batches, pools or recycles between calls is not shared state
+// of the two structures).
+func redisConcTwoFilters(c *Ctx, s *cmdSched, round int) {
+	k := []uint{3, 7, 12}[round%3]
+	A, e1 := gostatix.NewRedisBloomFilterFromBitSet(make([]uint64, 4), k)
+	B, e2 := gostatix.NewRedisBloomFilterFromBitSet(make([]uint64, 4), k)
+	if e1 != nil || e2 != nil {
+		return
+	}
+	c.rep.Cases++
+	var in, out [][]byte
+	for i := 0; i < 4; i++ {
+		in = append(in, []byte(fmt.Sprintf("both-%d-%d", round, i)))
+		out = append(out, []byte(fmt.Sprintf("none-%d-%d", round, i)))
+	}
+	for _, e := range in {
+		A.Insert(e)
+	}
+	A.Lookup(in[0])
+	B.Lookup(in[0])
+	wantB := make([]bool, len(in))
+	for i, e := range in {
+		wantB[i] = B.Lookup(e) // false unless a false positive of the empty filter (impossible: no bit is set)
+	}
+	gotA, gotB := make([]bool, len(in)), make([]bool, len(in))
+	workers := []func(){
+		func() {
+			for i, e := range in {
+				gotA[i] = A.Lookup(e)
+			}
+		},
+		func() {
+			for i, e := range in {
+				gotB[i] = B.Lookup(e)
+			}
+		},
+	}
+	fixed := [][]int{{1, 0, 1, 0, 1, 0}, {0, 1, 0, 1}, {1, 1, 0, 0}, nil}[round%4]
+	order := s.runScheduled(c.rng.Int63(), fixed, workers)
+	c.op("two-filters-concurrent-lookups")
+	for i := range in {
+		if !gotA[i] || gotB[i] != wantB[i] {
+			c.fail([]string{"C19", "C16", "C01"}, "bloom-concurrent-lookups-on-two-filters-interfere",
+				fmt.Sprintf("two Redis Bloom filters (%d hash functions): A holds the element, B is empty; concurrent Lookups returned A=%v B=%v for element %d (want true / %v)", k, gotA[i], gotB[i], i, wantB[i]),
+				map[string]interface{}{"hashes": k, "schedule": order})
+			return
+		}
+	}
+	if alternations(order) >= 2 {
+		c.nontrivial(fmt.Sprint("two-filters", round, order))
 	}
 }
 
